@@ -582,6 +582,9 @@ class World(object):
                 return True
             if out == 'raise':
                 raise ScriptedFailure('hook %s scripted failure' % hook_name)
+            if out == 'raise_bare':
+                # an exception without a message (a bare assert, KeyError())
+                raise ScriptedFailure()
             if out == 'true':
                 return True
             if out == 'false':
